@@ -137,7 +137,7 @@ fn plain_complex() -> BoxedStrategy<String> {
 fn inner() -> BoxedStrategy<Inner> {
     prop_oneof![
         5 => (proptest::option::weighted(0.2, proptest::sample::select(&['>', '+', '~'][..])), plain_complex()).prop_map(|(lead, text)| Inner::Plain { lead, text }),
-        4 => (one_of(&["-x", "__e", ".k", ":hover", "[t]", ".k.j", ":not(.n)", "-x.k"]), one_of(&["", "", " e", " > e", " ~ .f"])).prop_map(|(suffix, rest)| Inner::Suffix { suffix, rest }),
+        4 => (one_of(&["-x", "__e", ".k", ":hover", "[t]", ".k.j", ":not(.n)", "-x.k", ":host(.z)", ":host-context(.y)", ":host"]), one_of(&["", "", " e", " > e", " ~ .f"])).prop_map(|(suffix, rest)| Inner::Suffix { suffix, rest }),
         2 => (plain_complex(), proptest::option::weighted(0.4, proptest::sample::select(&['>', '+', '~'][..]))).prop_map(|(pre, comb)| Inner::Trailing { pre, comb }),
         2 => (one_of(&["", "q", ".w"]), one_of(&["not", "is", "where", "has", "matches"]), one_of(&["", ", .z", " > y", " .v"])).prop_map(|(pre, pseudo, extra)| Inner::InPseudo { pre, pseudo, extra }),
         1 => proptest::sample::select(&[' ', '+', '>', '~'][..]).prop_map(|comb| Inner::Double { comb }),
@@ -161,7 +161,7 @@ impl Prop for C19 {
         C19
     }
     fn rule(&self) -> String {
-        "nests of 2..4 style rules; every level is a list of 1..3 complex selectors built from compounds with type, class, id, attribute and pseudo-class selectors and all combinators; inner levels use selectors without `&` (also with a leading combinator), `&` with a suffix (`&-x`, `&__e`, `&.k`, `&:hover`, `&[t]`, followed or not by more compounds), trailing `&` (`x &`, `x > &`), `&` inside :not/:is/:where/:has/:matches arguments (alone or with other members) and two `&` (`& &`, `& + &`); every level carries a declaration. Oracle: reference resolution (outer-major combination, substitution of `&`, whole outer list inside pseudo arguments), compared with the emitted selectors after the independent canonicaliser (whitespace, order of simple selectors in a compound); with two `&` the results are compared as a multiset; the declaration of level k must sit under the k-th resolved selector, in order. Non-trivial: a level with >= 2 selectors or an `&`; distinct by nest".into()
+        "nests of 2..4 style rules; every level is a list of 1..3 complex selectors built from compounds with type, class, id, attribute and pseudo-class selectors and all combinators; inner levels use selectors without `&` (also with a leading combinator), `&` with a suffix (`&-x`, `&__e`, `&.k`, `&:hover`, `&[t]`, `&:host(.z)`, followed or not by more compounds), trailing `&` (`x &`, `x > &`), `&` inside :not/:is/:where/:has/:matches arguments (alone or with other members) and two `&` (`& &`, `& + &`); every level carries a declaration. Oracle: reference resolution (outer-major combination, substitution of `&`, whole outer list inside pseudo arguments), compared with the emitted selectors after the independent canonicaliser (whitespace, order of simple selectors in a compound); with two `&` the results are compared as a multiset; the declaration of level k must sit under the k-th resolved selector, in order. Non-trivial: a level with >= 2 selectors or an `&`; distinct by nest".into()
     }
     fn assumptions(&self) -> Vec<String> {
         vec!["outer compounds end in a name, so `&-x` suffixes are valid; pseudo-elements are not generated in outer levels".into(), "the order of simple selectors inside one compound is not compared (rsass prints compounds in a canonical order)".into()]
